@@ -279,6 +279,8 @@ class CallMixin:
         fi = fv.fi
         site = self.site(frame, node) if frame is not None else "<entry>"
         stub = self.find_stub(fi.qualname)
+        if stub is not None and self.depth == 0 and getattr(self, "_entry_qual", None) == fi.qualname:
+            stub = None      # the entry point itself is interpreted; only its (recursive) callees are summarised
         if stub is not None:
             r = stub(self, st, args, kwargs, frame, node)
             if r is not None:
